@@ -22,6 +22,7 @@ Not proved here (listed explicitly):
 -/
 import NetqasmVerif.Lemmas.AsmBuild
 import NetqasmVerif.Lemmas.AsmMacros
+import NetqasmVerif.Lemmas.AsmExec
 import NetqasmVerif.Props.AsmObligations
 namespace NQ.C03
 open NQ NQ.Asm
@@ -287,6 +288,82 @@ theorem nonvacuous_loop :
       simp only at h
       obtain ⟨rfl, h3⟩ := h
       exact ⟨s', steps_of_runN hr, h3⟩
+
+/-! ## the target is the executor model of C04
+
+`Model/Exec.lean` (`Exec.stepLoc`, the reference interpreter that C04 ties to the real `Executor`)
+is an instance of the machines above: `xMachine = ⟨stdRoles, xExec⟩` with `xExec` the executor's
+instruction semantics on evaluated operands, and `step_corr` proves for each of the 21
+instructions that a step (fault) of `xMachine` on the read-back of an executor program IS the
+step (fault of the same kind) of `Exec.stepLoc` on the concretised state `conc t` (registers
+restricted to the 4 × 16 file; memory = arrays, shared memory, unit module, used set, oracle, trace).
+Simulation mode (`hw = false`): in hardware mode `set r v` faults for `v` outside 32 bits, so a
+materialised literal would additionally have to fit (C16 rejects others when the subroutine is
+encoded). -/
+
+theorem stdLike_xMachine : StdLike xMachine := ⟨rfl, xExec_set⟩
+
+/-- **The executor model is an instance.**  For every executor program `X`, state and position:
+a step of `xMachine` on the read-back of `X` is the `Exec.stepLoc` step of `X[k]` on `conc t`
+(same successor state and program counter), and a fault is an `Exec` fault of the same kind. -/
+theorem exec_is_instance (a : Nat) (X : List Exec.Instr) (t : State XMem) (k : Nat) :
+    (∀ t' pc', step xMachine (X.map ofExec) t k = .next t' pc' →
+      ∃ x, X[k]? = some x ∧ Exec.stepLoc false a x (conc t) (k : Int) = .ok (conc t') (pc' : Int)) ∧
+    (∀ f, step xMachine (X.map ofExec) t k = .fault f →
+      ∃ x, X[k]? = some x ∧ lresKind (Exec.stepLoc false a x (conc t) (k : Int)) = some f) :=
+  step_corr a X t k
+
+section
+variable {P : List PCmd} {A : List Instr}
+
+/-- **`assemble_simulates_exec`.**  Source runs (proto program `P` under the executor's own
+instruction semantics, labels no-ops, literals evaluating to themselves) are reproduced by the
+EXECUTOR MODEL `Exec.stepLoc` running the assembled subroutine `X` (the instructions of `A` as
+`Exec.Instr`), from the image of the start position to the image of the end position, the
+states agreeing outside the scratch set. -/
+theorem assemble_simulates_exec (a : Nat) (hwf : LabelTargets xMachine P)
+    (hA : assemble Gen.vanillaRows Gen.excTable Gen.numScratch P = .ok A)
+    (X : List Exec.Instr) (hX : A.map (embed Gen.vanillaRows) = X.map ofExec)
+    {s s' t : State XMem} {i i' : Nat}
+    (hrun : Steps xMachine P (s, i) (s', i')) (hag : AgreeOutsideScratch Gen.numScratch P s t) :
+    ∃ t', XSteps a X (conc t, (tpos Gen.excTable P i : Int)) (conc t', (tpos Gen.excTable P i' : Int))
+      ∧ AgreeOutsideScratch Gen.numScratch P s' t' := by
+  obtain ⟨t', hst, hag'⟩ := assemble_simulates_run stdLike_xMachine hwf hA hrun hag
+  rw [hX] at hst
+  exact ⟨t', xsteps_of_steps a X hst, hag'⟩
+
+/-- … and a faulting source instruction makes the executor model fault with the same
+`Exec.Fault`, inside the image of that instruction. -/
+theorem assemble_simulates_exec_fault (a : Nat) (hwf : LabelTargets xMachine P)
+    (hA : assemble Gen.vanillaRows Gen.excTable Gen.numScratch P = .ok A)
+    (X : List Exec.Instr) (hX : A.map (embed Gen.vanillaRows) = X.map ofExec)
+    {s t : State XMem} {i : Nat} {f : Exec.Fault}
+    (hf : step xMachine P s i = .fault (faultCode f)) (hag : AgreeOutsideScratch Gen.numScratch P s t) :
+    ∃ (t' : State XMem) (j : Nat) (x : Exec.Instr) (l' : Exec.Loc),
+      XSteps a X (conc t, (tpos Gen.excTable P i : Int)) (conc t', (j : Int)) ∧
+      X[j]? = some x ∧ Exec.stepLoc false a x (conc t') (j : Int) = .fault l' f ∧
+      tpos Gen.excTable P i ≤ j ∧ j < tpos Gen.excTable P (i + 1) ∧
+      AgreeOutsideScratch Gen.numScratch P s t' := by
+  obtain ⟨t', j, hst, hfj, hlo, hhi, hag'⟩ := assemble_simulates_fault stdLike_xMachine hwf hA hf hag
+  rw [hX] at hst hfj
+  obtain ⟨x, hx, hk⟩ := (step_corr a X t' j).2 _ hfj
+  cases hl : Exec.stepLoc false a x (conc t') (j : Int) with
+  | ok l pc => simp [hl, lresKind] at hk
+  | fault l' g =>
+    simp only [hl, lresKind, Option.some.injEq] at hk
+    have := faultCode_inj hk
+    subst this
+    exact ⟨t', j, x, l', xsteps_of_steps a X hst, hx, hl, hlo, hhi, hag'⟩
+
+end
+
+/-- non-vacuity of `hX`: the assembled loop program, read as executor instructions -/
+def loopX : List Exec.Instr :=
+  [.set ⟨0, 0⟩ 0, .set ⟨0, 1⟩ 1, .add ⟨0, 0⟩ ⟨0, 0⟩ ⟨0, 1⟩, .set ⟨0, 1⟩ 3, .blt ⟨0, 0⟩ ⟨0, 1⟩ 1]
+
+theorem nonvacuous_exec :
+    (assemble Gen.vanillaRows Gen.excTable Gen.numScratch loopProg).toOption.map
+      (fun A => A.map (embed Gen.vanillaRows)) = some (loopX.map ofExec) := by decide +kernel
 
 /-! ## macros -/
 
